@@ -127,8 +127,13 @@ def run(ctx):
     for s in paths.stores(rd):
         if s["kind"] == "DeclRef" and s["rhs"] is not None:
             v = rd.canon(s["rhs"], subst=False)
-            if v.startswith("strtol(word,") or v.startswith("atof(word"):
-                seq.append((rd.line(s["node"]), s["path"], v.split("(")[0]))
+            m = re.match(r"^(strtol|strtod|atof)\((\w+)", v)
+            if m:
+                # the converted text is the next word of the line: its last definition before the conversion
+                # is the result of s3file_nextword / s3file_copy_nextword (in place or as a copy)
+                src = [d for d in paths.stores(rd) if d["path"] == m.group(2) and d["rhs"] is not None and re.search(r"s3file_(copy_)?nextword\(", rd.canon(d["rhs"], subst=False)) and rd.line(d["node"]) <= rd.line(s["node"])]
+                if src and s["path"] in ("i", "j", "p"):
+                    seq.append((rd.line(s["node"]), s["path"], m.group(1)))
     seq.sort()
     ctx.check(w2, [(x[1], x[2]) for x in seq if x[1] in ("i", "j", "p")] == [("i", "strtol"), ("j", "strtol"), ("p", "atof")], key(rd, "parse-order"), rd.where(rd.root), "reader parses transition fields as %s" % seq)
     for cal, nargs in (("fsg_model_trans_add", 5), ("fsg_model_null_trans_add", 4)):
